@@ -447,7 +447,10 @@ func lockHeldAt(f *ssa.Function, at ssa.Instruction, mu string, write bool) bool
 		if !ok {
 			return 0, false
 		}
-		if name, _, _ := fieldName(fa); name != mu {
+		if name, _, _ := fieldName(fa); mu != "" && name != mu {
+			return 0, false
+		}
+		if !strings.HasPrefix(callee.String(), "(*sync.") {
 			return 0, false
 		}
 		switch callee.Name() {
